@@ -6,7 +6,7 @@ use crate::model::{self, fnv, hex_short, Kind, Span};
 use crate::run::{CaseResult, Ctx, Env, Input, RunResult, Sub, Violation};
 use crate::sio::{self, Step};
 use crate::tape::Tape;
-use crate::viol;
+use crate::{ensure, viol};
 
 /// positions to cut at: all of them for short encodings, otherwise every field boundary (+-1)
 /// plus tape-chosen ones
@@ -58,6 +58,7 @@ fn prefixes<F: Family>(p: &F::Packet, t: &mut Tape, ctx: &mut Ctx) -> CaseResult
         Err(e) => viol!("encode of a valid packet failed: {:?}; packet {}", e, fam::render(p)),
     };
     let spans = spans_of::<F>(p, &enc);
+    let hl_of_enc = crate::refdec::frame_bounds(&enc).map(|x| x.0).unwrap_or(2);
     let cuts = positions(enc.len(), &spans, t, 400, 24);
     let mut interesting = false;
     let mut eof_ctr = t.pick(24);
@@ -78,6 +79,20 @@ fn prefixes<F: Family>(p: &F::Packet, t: &mut Tape, ctx: &mut Ctx) -> CaseResult
         match r {
             Err(e) if F::is_eof(&e) => {}
             other => viol!("async decoder on the first {} of {} bytes returned {:?} instead of an EOF error; packet {}", k, enc.len(), other.map(|q| fam::render(&q)), fam::render(p)),
+        }
+        // the bare fixed header of the same prefix: incomplete while the prefix ends inside it, the header itself afterwards
+        if k <= hl_of_enc + 2 {
+            let hb = F::header_decode(pre);
+            let mut rd: &[u8] = pre;
+            let ha = futures_lite::future::block_on(F::header_decode_async(&mut rd));
+            for (h, how) in [(&hb, "Header::decode"), (&ha, "Header::decode_async")] {
+                if k < hl_of_enc {
+                    ensure!(matches!(h, Err(e) if F::is_eof(e)), "{} on the first {} bytes of an encoding whose fixed header is {} bytes long returned {:?} instead of an EOF error; packet {}", how, k, hl_of_enc, h, fam::render(p));
+                } else {
+                    ensure!(matches!(h, Ok(x) if F::header_parts(x).4 as usize == enc.len() - hl_of_enc), "{} on the first {} bytes (complete fixed header of {} bytes) returned {:?}; packet {}", how, k, hl_of_enc, h, fam::render(p));
+                }
+            }
+            ctx.label("bare-header-of-prefix");
         }
         let run = fam::dec_poll::<F>(pre);
         match run.result {
@@ -241,7 +256,7 @@ pub fn run(env: &mut Env) -> RunResult {
         }
     }
     for s in ["c07.cuts.v3", "c07.cuts.v5", "c07.typed.v3", "c07.typed.v5"] {
-        for l in ["eof-as-transport-error:poll", "eof-as-transport-error:async", "eof-after-trickle"] {
+        for l in ["eof-as-transport-error:poll", "eof-as-transport-error:async", "eof-after-trickle", "bare-header-of-prefix"] {
             env.require(s, l);
         }
     }
